@@ -133,8 +133,12 @@ class Schema:
     def post_read(self, obj, attr, sv):
         if obj.cls == "LazyIntervalTree" and attr == "_value_collection" and obj.x in self.LIT:
             return SV(sv.k, sv.t, cls=self.LIT[obj.x][1], x=obj.x, wb=sv.wb)
-        if attr == "_data" and isinstance(obj.x, str) and sv.k in ("set", "list"):
-            return SV(sv.k, sv.t, cls=obj.x, x=sv.x, wb=sv.wb)      # element class of an owning collection
+        if attr == "_data" and sv.k in ("set", "list"):
+            elem = obj.x if isinstance(obj.x, str) else {
+                "ByteInterval._BlockSet": "ByteBlock", "Section._ByteIntervalSet": "ByteInterval",
+                "IR._ModuleList": "Module"}.get(obj.cls)
+            if elem:
+                return SV(sv.k, sv.t, cls=elem, x=sv.x, wb=sv.wb)      # element class of an owning collection
         if obj.cls == "LazyIntervalTree" and attr == "_interval_index":
             return SV(sv.k, sv.t, cls="$IntervalTree", x=obj.x, wb=sv.wb)
         return sv
